@@ -23,6 +23,7 @@ package main
 //@ func makeISOApp.Run results(err)
 //@   tags C20,C04
 //@   requires a != nil && a.Target != nil
+//@   requires confined(a.Directory) @kong-existingdir-mapper-gives-an-absolute-clean-path
 //@   modifies fopen, fpos, iofaults, copysrc, copydst, wn, wdata
 //@   ensures[C20] err == nil ==> copydst == a.Target && typeis(copysrc, "*fs.VirtualISO") && cast(copysrc, "fs.VirtualISO").ps3Mode == a.PS3Mode && (a.Directory != "" ==> cast(copysrc, "fs.VirtualISO").root == a.Directory) @the-generated-image-of-the-directory-is-copied
 
